@@ -25,7 +25,7 @@ def spell(rng, kind, n):
     return kind.upper() + rng.choice(['X1', '_X1', ''])
 
 
-def gen_script(rng, max_gates=24, max_in=6, max_ff=3, p_glitchy=0.2, style=None, want_dangling=None, allow_const=True, allow_floating=True):
+def gen_script(rng, max_gates=24, max_in=6, max_ff=3, p_glitchy=0.2, style=None, want_dangling=None, allow_const=True, allow_floating=True, p_long_chain=0.0):
     style = style or rng.choice(['v', 'v', 'b'])
     n_in = rng.randint(1, max_in)
     n_ff = rng.choice([0, 0, 0, 1, 2, max_ff]) if max_ff > 0 else 0
@@ -92,7 +92,8 @@ def gen_script(rng, max_gates=24, max_in=6, max_ff=3, p_glitchy=0.2, style=None,
     if not outs: outs.append(max(0, n_sig - 1))
     rng.shuffle(outs)
     fmode = [rng.choice([0, 0, 1, 1, 2, 3, 4]) for _ in range(rng.randint(1, 8))]
-    return {'style': style, 'n_in': n_in, 'floating': n_fl, 'ffs': ffs, 'gates': gates, 'outs': outs, 'fmode': fmode,
+    long_chain = rng.randrange(1 << 16) if rng.random() < p_long_chain else None      # ONE net routed through 1200 forks in series (deeper than the default recursion limit)
+    return {'long_chain': long_chain, 'style': style, 'n_in': n_in, 'floating': n_fl, 'ffs': ffs, 'gates': gates, 'outs': outs, 'fmode': fmode,
             'io_mix': rng.random() < 0.3, 'fork_rev': rng.random() < 0.25, 'node_shuffle': rng.randrange(1, 1 << 16) if rng.random() < 0.25 else 0}
 
 
@@ -176,6 +177,7 @@ def build(script):
         pn, ppin = prod[s]
         rd = readers[s]
         mode = fmode[s % len(fmode)]
+        if script.get('long_chain') is not None and s == script['long_chain'] % n_sig: mode = 1200
         is_gate = s >= n_base
         if pn is None:     # undriven signal
             if rd: _fan(c, Node(c, names[s]), rd, mode, names[s])
@@ -240,7 +242,7 @@ def reorder(c, seed, ports_first=False):
 
 
 def _prefork(c, rd, mode, name):
-    if mode == 4: return [Node(c, f'{name}~c{k}') for k in range(3)]
+    if mode == 4 or mode >= 100: return [Node(c, f'{name}~c{k}') for k in range(3 if mode == 4 else mode)]
     if mode == 2: return [Node(c, f'{name}~b{k}') for k in range(len(rd))]
     if mode == 3 and len(rd) >= 2: return [Node(c, f'{name}~{part}') for part in ('l', 'r')]
     return None
@@ -253,8 +255,8 @@ def _fan(c, fork, rd, mode, name, pre=None):
             bf = pre[k] if pre else Node(c, f'{name}~b{k}')
             Line(c, fork, (bf, 0))
             Line(c, bf, r)
-    elif mode == 4:      # a chain of three more forks below the signal's fork; readers hang off every stage
-        stages = pre if pre else [Node(c, f'{name}~c{k}') for k in range(3)]
+    elif mode == 4 or mode >= 100:      # a chain of three (or, rarely, more than a thousand) more forks below the signal's fork; readers hang off every stage
+        stages = pre if pre else [Node(c, f'{name}~c{k}') for k in range(3 if mode == 4 else mode)]
         up = fork
         for sf in stages:
             Line(c, up, (sf, 0))
@@ -291,6 +293,7 @@ def shrink_script(script):
             yield dict(script, outs=script['outs'][:j] + script['outs'][j + 1:])
     if script['n_in'] > 1: yield dict(script, n_in=script['n_in'] - 1)
     if script.get('floating'): yield dict(script, floating=script['floating'] - 1)
+    if script.get('long_chain') is not None: yield dict(script, long_chain=None)
     if script['fmode'] != [0]: yield dict(script, fmode=[0])
     if script.get('io_mix'): yield dict(script, io_mix=False)
     if script.get('fork_rev'): yield dict(script, fork_rev=False)
